@@ -5,6 +5,15 @@ cd "$(dirname "$0")/.."
 test -z "$(git -C /repo status --porcelain)" || { echo "/repo has uncommitted changes"; exit 1; }
 /venv/bin/python tools/translate.py /repo lean/PicoSVG/Gen >/dev/null
 python3 tools/mkmanifest.py >/dev/null
+# committed evidence files must come from runs on the unchanged tree that held: refresh any that do not
+for f in evidence/C*.json; do
+  id=$(basename $f .json)
+  ok=$(/venv/bin/python -c "
+import json,sys
+d=json.load(open('$f')); c=d.get('coverage',{})
+print(int(d.get('violations',0)==0 and c.get('discharged')==c.get('obligations') and c.get('discharged',0)>0))")
+  if [ "$ok" != "1" ]; then echo "refreshing evidence of $id"; ./check $id >/dev/null 2>&1 || echo "WARNING: $id does not pass on the unchanged tree"; fi
+done
 git add -A
 git commit -qm "$1"
 git log --oneline | head -1
